@@ -1,5 +1,6 @@
 import os
 import gzip
+import signal
 import logging
 import pysyncobj.pickle as pickle
 
@@ -194,6 +195,7 @@ class Serializer(object):
         if isLast:
             self.__incomingTransmissionFile.close()
             self.__incomingTransmissionFile = None
+            self.__stopDumpChild()
             try:
                 atomicReplace(tmpFile, self.__fileName)
             except:
@@ -201,6 +203,16 @@ class Serializer(object):
                 return False
             return True
         return False
+
+    def __stopDumpChild(self):
+        # A forked writer of our own, older dump must not rename it over the snapshot being installed.
+        if self.__useFork and self.__pid > 0:
+            try:
+                os.kill(self.__pid, signal.SIGKILL)
+                os.waitpid(self.__pid, 0)
+            except OSError:
+                pass
+            self.__pid = 0
 
     def cancelTransmisstion(self, id):
         self.__transmissions.pop(id, None)
